@@ -829,6 +829,7 @@ class Exec:
 
     def slice(s, b, lo, hi, node):
         if isinstance(b, Opaque): return Opaque("str")
+        if isinstance(b, str) and all(isinstance(v, (int, type(None))) for v in (lo, hi)): return b[lo:hi]
         xs = b.items if isinstance(b, PList) else b.xs if isinstance(b, Vec) else b if isinstance(b, (list, tuple)) else None
         if xs is None or not all(isinstance(v, (int, type(None))) for v in (lo, hi)): raise Unsupported("slice of %r" % (b,), node)
         r = xs[lo:hi]
@@ -923,6 +924,7 @@ class Exec:
             return iomodel.path_div(s, a, b)
         if isinstance(a, Opaque) or isinstance(b, Opaque): return Opaque("str")
         if isinstance(a, str) or isinstance(b, str):
+            if isinstance(op, ast.Add) and isinstance(a, str) and isinstance(b, str): return a + b
             if isinstance(op, (ast.Add, ast.Mod)): return Opaque("str")
             raise Unsupported("string operator", node)
         if isinstance(a, Obj) or isinstance(b, Obj):
@@ -1432,9 +1434,9 @@ def _isinstance(s, x, c):
 
 BUILTINS = {'float': _float, 'int': _int, 'round': _round, 'getattr': _getattr, 'len': _len, 'range': _range, 'sum': _sum,
             'abs': _abs, 'max': _minmax(tmax, max), 'min': _minmax(tmin, min), 'list': _list, 'set': _set, 'copy': _copy,
-            'filter': _filter, 'print': lambda s, *a, **k: None, 'str': lambda s, *a: Opaque("str"),
+            'filter': _filter, 'print': lambda s, *a, **k: None, 'str': lambda s, *a: (str(a[0]) if len(a) == 1 and isinstance(a[0], (int, str)) and not isinstance(a[0], bool) else Opaque("str")),
             'tuple': lambda s, x: tuple(x.items) if isinstance(x, PList) else tuple(x),
-            'hash': lambda s, *a: Opaque("hash"), 'type': lambda s, x: _type_of(s, x), 'open': lambda s, *a, **k: _open(s, *a, **k)}
+            'hash': lambda s, *a: (s.contracts['__fixed_clock__'] if s.contracts.get('__fixed_clock__') is not None else Opaque("hash")), 'type': lambda s, x: _type_of(s, x), 'open': lambda s, *a, **k: _open(s, *a, **k)}
 
 
 def _type_of(s, x):
